@@ -1,14 +1,20 @@
 import RxModel.Lemmas.Impl
+import RxModel.Lemmas.PlainDerived
 import RxModel.Props.C02
 import RxModel.Props.C09
 /-!
 # C01 — multiplexing is transparent: keyed execution equals per-group plain execution
 
-Mux side: by `impl_eq_ref` and `C02_lifetime`, what a supported pipeline `P` emits for one key
-lifetime with items `xs`, on any well-formed trace, is `P.loc.outL xs`.
+Mux side: by `impl_eq_ref` and `C02_confinement`, what a flat pipeline `P` emits for one key lifetime
+with items `xs`, wherever that lifetime sits in a well-formed trace, is `P.loc.outL xs`.
 Plain side: `PlainOp.out` (RxPY built-ins and rxsci's own plain operators, modelled).
-`PlainAgrees Pl L`: whenever the plain run does not raise, both deliver the same items in the same
-order.  It is proved for every dual-mode primitive; pipelines compose them.
+
+`AgreeT Pl L` (Lemmas/PlainSim.lean) is the compositional form of "plain = keyed": same items in
+the same order whenever the plain run does not raise (the property's precondition), and a prefix
+when it does.  It is proved for every dual-mode primitive (`C01_stage_*`), it is closed under
+sequential composition (`agreeT_comp` — early completion of `take`/`first`, which stops the
+upstream on the plain path only, included), hence it holds for every flat pipeline of them
+(`C01_pipeline`), to any length.  `C01_transparent` joins both sides.
 -/
 namespace Rx
 
@@ -17,6 +23,12 @@ def noFatal {β} (l : List (LOut β)) : Bool := l.all (fun o => match o with | .
 /-- plain and keyed execution of one operator deliver the same items (when plain does not raise) -/
 def PlainAgrees {α β} (Pl : PlainOp α β) (L : LocalOp α β) : Prop :=
   ∀ xs : List α, noFatal (Pl.out xs) = true → items (Pl.out xs) = items (L.outL xs)
+
+theorem plainAgrees_of_agreeT {α β} (Pl : PlainOp α β) (L : LocalOp α β) (a : AgreeT Pl L) : PlainAgrees Pl L := by
+  intro xs h
+  apply agreeT_out Pl L a xs
+  have e : (!hasFatal (Pl.out xs)) = true := (noFatal_iff (Pl.out xs)).symm.trans h
+  simpa using e
 
 /-- **mux side**: the events a supported pipeline emits for a single lifetime of key `k`, wherever
 that lifetime sits in a well-formed trace, are the local meaning of the pipeline on its items -/
@@ -28,54 +40,201 @@ theorem C01_mux_lifetime (P : Pipe) (k : Key) (xs : List Val) :
   rw [h]
   simp [LocalOp.outL, List.flatten_append, List.map_append, List.map_flatten]
 
-theorem truncFatal_noFatal {β} (l : List (LOut β)) (h : noFatal l = true) : truncFatal l = l := by
-  induction l with
+/-! ### the dual-mode primitives: plain implementation vs `*_mux` implementation -/
+
+/-- map / starmap / identity / do_action / clip / fill_none (all `map` instances) -/
+theorem C01_stage_map {α β} (f : α → Except Err β) : AgreeT (pMap f) (mapOp f) := primSim_agreeT _ _ (simMap f)
+/-- filter: the plain path applies Python truthiness, the keyed path must apply the same test -/
+theorem C01_stage_filter {α γ} (p : α → Except Err γ) (tr : γ → Bool) : AgreeT (pFilter p tr) (filterOp p tr) :=
+  primSim_agreeT _ _ (simFilter p tr)
+theorem C01_stage_flat_map {α β} (el : α → List β) : AgreeT (pFlatMap el) (flatMapOp el) :=
+  primSim_agreeT _ _ (simFlatMap el)
+/-- scan with any accumulator, seed, reduce flag and terminator (count, sum, min, max, mean, variance, … are instances) -/
+theorem C01_stage_scan {α γ} (g : γ → α → Except Err γ) (seed : γ) (r : Bool) (term : Option (γ → γ)) :
+    AgreeT (pScan g seed r term) (scanOp g seed r term) := primSim_agreeT _ _ (simScan g seed r term)
+/-- first: RxPY raises on an empty sequence (precondition), completes after the first item; `first_mux` goes silent -/
+theorem C01_stage_first {α} : AgreeT (pFirst (α := α)) firstOp := primSim_agreeT _ _ simFirst
+theorem C01_stage_last {α} : AgreeT (pLast (α := α)) lastOp := primSim_agreeT _ _ simLast
+/-- take(n) for every n, `take(0)` (= `rx.empty()`) included -/
+theorem C01_stage_take {α} (n : Nat) : AgreeT (pTake (α := α) n) (takeOp n) := primSim_agreeT _ _ (simTake n)
+theorem C01_stage_assert {α} (p : α → Except Err Bool) (en : Err) : AgreeT (pAssert p en) (assertOp p en) :=
+  primSim_agreeT _ _ (simAssert p en)
+theorem C01_stage_assert1 {α} (p : α → α → Bool) (en : Err) : AgreeT (pAssert1 p en) (assert1Op p en) :=
+  primSim_agreeT _ _ (simAssert1 p en)
+/-- to_list: RxPY `to_list` vs `scan(append, reduce=True)` -/
+theorem C01_stage_to_list : AgreeT (pToList Val.lst) (scanOp toListAcc (Val.lst []) true none) :=
+  primSim_agreeT _ _ simToList
+
+/-! ### pipelines -/
+
+mutual
+/-- a stage with both implementations whose agreement is proved -/
+def Stage.Dual : Stage → Prop
+  | .prim L (some Pl) => StartOK Pl ∧ AgreeT Pl L
+  | .prim _ none => False
+  | .wrap _ _ _ => False
+  | .tee _ _ => False
+def Pipe.Dual : Pipe → Prop
+  | .nil => True
+  | .cons s rest => s.Dual ∧ rest.Dual
+end
+
+theorem Pipe.dual_supported : (P : Pipe) → P.Dual → P.Supported
+  | .nil, _ => trivial
+  | .cons (.prim _ _) rest, h => ⟨trivial, rest.dual_supported h.2⟩
+  | .cons (.wrap _ _ _) _, h => by simp [Pipe.Dual, Stage.Dual] at h
+  | .cons (.tee _ _) _, h => by simp [Pipe.Dual, Stage.Dual] at h
+
+theorem Pipe.dual_agree : (P : Pipe) → P.Dual → ∃ Pl, P.plain = some Pl ∧ StartOK Pl ∧ AgreeT Pl P.loc
+  | .nil, _ => ⟨idPlain, rfl, primSim_startOK _ _ simId, primSim_agreeT _ _ simId⟩
+  | .cons (.prim L (some Pl)) rest, h => by
+    obtain ⟨Pr, hp, hs, ha⟩ := rest.dual_agree h.2
+    refine ⟨compPlain Pl Pr, ?_, startOK_comp Pl Pr h.1.1 hs, agreeT_comp Pl Pr L rest.loc h.1.1 hs h.1.2 ha⟩
+    simp [Pipe.plain, Stage.plain, hp]
+  | .cons (.prim _ none) _, h => by simp [Pipe.Dual, Stage.Dual] at h
+  | .cons (.wrap _ _ _) _, h => by simp [Pipe.Dual, Stage.Dual] at h
+  | .cons (.tee _ _) _, h => by simp [Pipe.Dual, Stage.Dual] at h
+
+/-- **C01 for arbitrary compositions** (flat pipelines of dual-mode operators, any length): the plain
+interpretation exists and, whenever the plain run does not raise, delivers exactly the items, in the
+same order, that the keyed (local) interpretation of the same pipeline delivers for a group with
+those items -/
+theorem C01_pipeline (P : Pipe) (hd : P.Dual) :
+    ∃ Pl, P.plain = some Pl ∧ ∀ xs, noFatal (Pl.out xs) = true → items (Pl.out xs) = items (P.loc.outL xs) := by
+  obtain ⟨Pl, hp, _, ha⟩ := P.dual_agree hd
+  exact ⟨Pl, hp, plainAgrees_of_agreeT Pl P.loc ha⟩
+
+/-- items delivered for key `k` in a mux event stream -/
+def muxItems {β} (k : Key) (evs : List (Ev β)) : List β :=
+  evs.filterMap (fun e => match e with | .next k' v => if k' = k then some v else none | _ => none)
+
+theorem muxItems_filter {β} (k : Key) (evs : List (Ev β)) : muxItems k (evs.filter (ofKey k)) = muxItems k evs := by
+  induction evs with
   | nil => rfl
-  | cons o l ih =>
-    cases o with
-    | fatal e => simp [noFatal] at h
-    | item b => simp only [truncFatal]; rw [ih (by simpa [noFatal] using h)]
-    | err e => simp only [truncFatal]; rw [ih (by simpa [noFatal] using h)]
+  | cons e evs ih =>
+    cases e with
+    | next k' v =>
+      by_cases hk : k' = k
+      · subst hk; simp [muxItems, ofKey, evKey, List.filter_cons] at ih ⊢; exact ih
+      · simp [muxItems, ofKey, evKey, List.filter_cons, hk] at ih ⊢; exact ih
+    | create k' =>
+      by_cases hk : k' = k
+      · subst hk; simp [muxItems, ofKey, evKey, List.filter_cons] at ih ⊢; exact ih
+      · simp [muxItems, ofKey, evKey, List.filter_cons, hk] at ih ⊢; exact ih
+    | done k' =>
+      by_cases hk : k' = k
+      · subst hk; simp [muxItems, ofKey, evKey, List.filter_cons] at ih ⊢; exact ih
+      · simp [muxItems, ofKey, evKey, List.filter_cons, hk] at ih ⊢; exact ih
+    | err k' e =>
+      by_cases hk : k' = k
+      · subst hk; simp [muxItems, ofKey, evKey, List.filter_cons] at ih ⊢; exact ih
+      · simp [muxItems, ofKey, evKey, List.filter_cons, hk] at ih ⊢; exact ih
+    | fatal e => simp [muxItems, ofKey, evKey, List.filter_cons] at ih ⊢; exact ih
 
-/-! ### the dual-mode primitives -/
-
-theorem pmap_run {α β} (f : α → Except Err β) (hf : ∀ x, ∃ y, f x = .ok y) :
-    ∀ xs : List α, (pMap f).runP () xs = (mapOp f).runL () xs := by
-  intro xs
-  induction xs with
+theorem muxItems_liftOut {β} (k : Key) (os : List (LOut β)) : muxItems k (os.map (liftOut k)) = items os := by
+  induction os with
   | nil => rfl
-  | cons x xs ih =>
-    obtain ⟨y, hy⟩ := hf x
-    have hn : (pMap f).next () x = ((), [.item y], false) := by simp [pMap, hy]
-    have hs : stopsP ((pMap f).next () x).2 = false := by rw [hn]; simp [stopsP]
-    rw [runP_cons_go _ _ _ _ hs, hn, ih]
-    show _ = runRaw (mapOp f).next (mapOp f).fin () (x :: xs)
-    simp [runRaw, mapOp, hy, LocalOp.runL]
+  | cons o os ih => cases o <;> simp [muxItems, liftOut] at ih ⊢ <;> exact ih
 
-/-- map: same items whenever the mapper does not raise (a raising mapper is an `on_error` on the
-plain path — outside the property's precondition — and a mux error on the keyed path) -/
-theorem C01_stage_map {α β} (f : α → Except Err β) (hf : ∀ x, ∃ y, f x = .ok y) :
-    PlainAgrees (pMap f) (mapOp f) := by
-  intro xs _
-  have h := pmap_run f hf xs
-  have : (pMap f).out xs = truncFatal ((mapOp f).outL xs) := by
-    simp only [PlainOp.out, PlainOp.run, pMap, stopsP, List.any_nil, Bool.or_false, Bool.false_eq_true, if_false,
-      List.flatten_cons, List.nil_append]
-    have h' : (pMap f).runP () xs = (mapOp f).runL () xs := h
-    simp only [pMap] at h'
-    rw [h']
-    rfl
-  rw [this]
-  have hnf : noFatal ((mapOp f).outL xs) = true := by
-    have : ∀ (xs : List α), noFatal ((runRaw (mapOp f).next (mapOp f).fin () xs).1.flatten ++
-        (runRaw (mapOp f).next (mapOp f).fin () xs).2) = true := by
-      intro xs; induction xs with
-      | nil => simp [runRaw, mapOp, noFatal]
-      | cons x xs ih =>
-        obtain ⟨y, hy⟩ := hf x
-        simp only [runRaw, mapOp, hy, List.flatten_cons] at ih ⊢
-        simpa [noFatal] using ih
-    exact this xs
-  rw [truncFatal_noFatal _ hnf]
+/-- **C01, both sides joined**: let `P` be any flat pipeline of dual-mode operators and `t` any
+well-formed multiplexed input (any number of groups, any interleaving, sparse or reused slot
+indices) in which group `k` has the items `xs`.  If the plain pipeline run on `xs` alone does not
+raise, then the items the multiplexed pipeline (index-addressed store implementation) delivers for
+`k` are exactly the items the plain pipeline delivers, in the same order. -/
+theorem C01_transparent (P : Pipe) (hd : P.Dual) (t : List (Ev Val)) (ht : WF t) (k : Key) (xs : List Val)
+    (hk : t.filter (ofKey k) = [.create k] ++ xs.map (.next k) ++ [.done k]) :
+    ∃ Pl, P.plain = some Pl ∧
+      (noFatal (Pl.out xs) = true → muxItems k (P.mux.run t).flatten = items (Pl.out xs)) := by
+  obtain ⟨Pl, hp, hag⟩ := C01_pipeline P hd
+  refine ⟨Pl, hp, fun hnf => ?_⟩
+  rw [hag xs hnf, ← muxItems_filter, C02_confinement P (P.dual_supported hd) t ht k, hk, muxItems_filter,
+    C01_mux_lifetime]
+  simp [muxItems, muxItems_liftOut]
+  have := muxItems_liftOut k (P.loc.outL xs)
+  simpa [muxItems] using this
+
+/-! ### the catalogue: every builder of Derived.lean yields dual stages / pipelines -/
+
+theorem dual_of_sim {L : LocalOp Val Val} {Pl : PlainOp Val Val} (S : PrimSim Pl L) : (Stage.prim L (some Pl)).Dual :=
+  ⟨primSim_startOK _ _ S, primSim_agreeT _ _ S⟩
+
+theorem Pipe.dual_ofList : (l : List Stage) → (∀ s ∈ l, s.Dual) → (Pipe.ofList l).Dual
+  | [], _ => trivial
+  | s :: r, h => ⟨h s (by simp), Pipe.dual_ofList r (fun x hx => h x (by simp [hx]))⟩
+
+theorem Pipe.dual_append : (p q : Pipe) → p.Dual → q.Dual → (p.append q).Dual
+  | .nil, _, _, hq => hq
+  | .cons _ r, q, hp, hq => ⟨hp.1, Pipe.dual_append r q hp.2 hq⟩
+
+/-- **closure**: pipelines assembled from dual stages by listing and appending are dual, so
+`C01_pipeline` / `C01_transparent` apply to compositions of any depth -/
+theorem C01_dual_closed :
+    (∀ l : List Stage, (∀ s ∈ l, s.Dual) → (Pipe.ofList l).Dual) ∧
+    (∀ p q : Pipe, p.Dual → q.Dual → (p.append q).Dual) :=
+  ⟨Pipe.dual_ofList, Pipe.dual_append⟩
+
+theorem dual_map (f : D.F1) : (D.map f).Dual := dual_of_sim (simMap f)
+theorem dual_filter (p : D.F1) : (D.filter p).Dual := dual_of_sim (simFilter p Val.truthy)
+theorem dual_scan (g : D.F2) (seed : Val) (r : Bool) (term : Option (Val → Val)) : (D.scan g seed r term).Dual :=
+  dual_of_sim (simScan g seed r term)
+
+theorem dual_batch (n : Nat) : (D.batch n).Dual := by
+  refine ⟨⟨?_, ?_⟩, trivial⟩
+  · exact startOK_comp _ _ (startOK_comp _ _ (startOK_comp _ _ (primSim_startOK _ _ (simScan _ _ _ _))
+      (primSim_startOK _ _ (simFilter _ _))) (primSim_startOK _ _ (simMap _))) (primSim_startOK _ _ (simMap _))
+  · exact agreeT_comp _ _ _ _
+      (startOK_comp _ _ (startOK_comp _ _ (primSim_startOK _ _ (simScan _ _ _ _)) (primSim_startOK _ _ (simFilter _ _)))
+        (primSim_startOK _ _ (simMap _)))
+      (primSim_startOK _ _ (simMap _))
+      (agreeT_comp _ _ _ _ (startOK_comp _ _ (primSim_startOK _ _ (simScan _ _ _ _)) (primSim_startOK _ _ (simFilter _ _)))
+        (primSim_startOK _ _ (simMap _))
+        (agreeT_comp _ _ _ _ (primSim_startOK _ _ (simScan _ _ _ _)) (primSim_startOK _ _ (simFilter _ _))
+          (C01_stage_scan _ _ _ _) (C01_stage_filter _ _))
+        (C01_stage_map _))
+      (C01_stage_map _)
+
+/-- **the dual-mode operators of the property's list**, as the code defines them (Derived.lean):
+each is a dual stage or a dual pipeline, for every user function and parameter -/
+theorem C01_builders :
+    (∀ f, (D.map f).Dual) ∧ (∀ p, (D.filter p).Dual) ∧ D.flatMap.Dual ∧
+    (∀ g seed r term, (D.scan g seed r term).Dual) ∧ D.first.Dual ∧ D.last.Dual ∧ (∀ n, (D.take n).Dual) ∧
+    (∀ p, (D.assertS p).Dual) ∧ (∀ p, (D.assert1 p).Dual) ∧ D.toList.Dual ∧
+    (∀ r, (D.count r).Dual) ∧ (∀ key r, (D.sum key r).Dual) ∧ (∀ m key r, (D.minmax m key r).Dual) ∧
+    D.identity.Dual ∧ (∀ lo hi, (D.clip lo hi).Dual) ∧ (∀ x, (D.fillNone x).Dual) ∧
+    (∀ key r, (D.mean key r).Dual) ∧ (∀ key r, (D.variance key r).Dual) ∧ (∀ key r, (D.stddev key r).Dual) ∧
+    (∀ key r, (D.fvariance key r).Dual) ∧ (∀ key r, (D.fstddev key r).Dual) ∧
+    (∀ n, (D.batch n).Dual) ∧ (∀ key, (D.duc key).Dual) := by
+  have hsqrt : D.sqrtMap.Dual := dual_map _
+  have hvar : ∀ key r, (D.variance key r).Dual := fun key r =>
+    Pipe.dual_ofList _ (by intro s hs; simp at hs; rcases hs with rfl | rfl <;> first | exact dual_scan _ _ _ _ | exact dual_map _)
+  have hfvar : ∀ key r, (D.fvariance key r).Dual := fun key r =>
+    Pipe.dual_ofList _ (by intro s hs; simp at hs; rcases hs with rfl | rfl <;> first | exact dual_scan _ _ _ _ | exact dual_map _)
+  refine ⟨dual_map, dual_filter, dual_of_sim (simFlatMap _), dual_scan, dual_of_sim simFirst, dual_of_sim simLast,
+    fun n => dual_of_sim (simTake n), fun p => dual_of_sim (simAssert _ _), fun p => dual_of_sim (simAssert1 p _),
+    dual_of_sim simToList, fun r => dual_scan _ _ _ _, fun key r => dual_scan _ _ _ _, fun m key r => dual_scan _ _ _ _,
+    dual_map _, fun lo hi => dual_map _, fun x => dual_map _, ?_, hvar, ?_, hfvar, ?_, dual_batch, ?_⟩
+  · intro key r
+    exact Pipe.dual_ofList _ (by intro s hs; simp at hs; rcases hs with rfl | rfl <;> first | exact dual_scan _ _ _ _ | exact dual_map _)
+  · intro key r
+    exact Pipe.dual_append _ _ (hvar key r) (Pipe.dual_ofList _ (by intro s hs; simp at hs; subst hs; exact hsqrt))
+  · intro key r
+    exact Pipe.dual_append _ _ (hfvar key r) (Pipe.dual_ofList _ (by intro s hs; simp at hs; subst hs; exact hsqrt))
+  · intro key
+    exact Pipe.dual_ofList _ (by
+      intro s hs; simp at hs
+      rcases hs with rfl | rfl | rfl <;> first | exact dual_scan _ _ _ _ | exact dual_filter _ | exact dual_map _)
+
+/-- non-vacuity: a concrete pipeline (filter | take 2 | last — early completion in the middle) is
+dual, and a concrete interleaved trace with a reused slot index meets the hypotheses -/
+example : (Pipe.ofList [D.filter (fun v => .ok v), D.take 2, D.last]).Dual :=
+  Pipe.dual_ofList _ (by
+    intro s hs; simp at hs
+    rcases hs with rfl | rfl | rfl
+    · exact dual_filter _
+    · exact dual_of_sim (simTake 2)
+    · exact dual_of_sim simLast)
+
+example : WF ([.create [3, 0], .create [1, 0], .next [3, 0] (.int 1), .next [1, 0] (.int 5), .done [3, 0],
+    .create [3, 0], .done [1, 0], .done [3, 0]] : List (Ev Val)) := by unfold WF; decide
 
 end Rx
